@@ -1,0 +1,67 @@
+//! Verification facade (cargo feature `verif-hooks`).
+//!
+//! Add-only access to crate-private items for the external verification harness. Nothing in
+//! here is used by the crate itself; with the feature off this module does not exist.
+#![allow(missing_docs, clippy::type_complexity)]
+
+use crate::packet::{Packet, PacketHeader, PacketKind, ProtocolIdentity};
+use crate::Enr;
+use enr::NodeId;
+
+/// Plain-field view of a [`Packet`].
+#[derive(Debug, Clone, PartialEq, Eq)]
+pub struct RawPacket {
+    pub iv: u128,
+    pub nonce: [u8; 12],
+    pub kind: PacketKind,
+    pub message: Vec<u8>,
+}
+
+fn to_packet(p: RawPacket, protocol_identity: ProtocolIdentity) -> Packet {
+    Packet {
+        iv: p.iv,
+        header: PacketHeader {
+            message_nonce: p.nonce,
+            protocol_identity,
+            kind: p.kind,
+        },
+        message: p.message,
+    }
+}
+
+fn from_packet(p: Packet) -> RawPacket {
+    RawPacket {
+        iv: p.iv,
+        nonce: p.header.message_nonce,
+        kind: p.header.kind,
+        message: p.message,
+    }
+}
+
+/// `Packet::encode` together with `Packet::authenticated_data`.
+pub fn packet_encode(
+    p: RawPacket,
+    protocol_identity: ProtocolIdentity,
+    dst_id: &NodeId,
+) -> (Vec<u8>, Vec<u8>) {
+    let packet = to_packet(p, protocol_identity);
+    let ad = packet.authenticated_data();
+    (packet.encode(dst_id), ad)
+}
+
+/// `Packet::decode`; the error is rendered with `Debug`.
+pub fn packet_decode(
+    local_id: &NodeId,
+    protocol_identity: ProtocolIdentity,
+    data: &[u8],
+) -> Result<(RawPacket, Vec<u8>), String> {
+    Packet::decode(local_id, protocol_identity, data)
+        .map(|(p, ad)| (from_packet(p), ad))
+        .map_err(|e| format!("{e:?}"))
+}
+
+/// The record decoder used by the packet and message codecs.
+pub fn enr_decode_prefix(data: &[u8]) -> Option<Enr> {
+    use alloy_rlp::Decodable;
+    <Enr>::decode(&mut &data[..]).ok()
+}
